@@ -13,9 +13,9 @@ PROPS = ["C05", "C09"]
 # per property and tier: list of (cfg, mode, sample); sample = number of transitions taken as targets
 # of the walks (None = every transition of the bounded graph is executed)
 CONFIGS = {
-    "C05": {"quick": [("SpeakerMC_bgp.cfg", "edges", 5000), ("SpeakerMC_bgp2.cfg", "edges", 5000),
-                      ("SpeakerMC_bgpeq.cfg", "edges", 5000), ("SpeakerMC_bgpflap.cfg", "edges", None),
-                      ("SpeakerMC_bgpfault.cfg", "edges", 6000), ("SpeakerMC_bgp_sim.cfg", "sim", None)],
+    "C05": {"quick": [("SpeakerMC_bgp.cfg", "edges", 4000), ("SpeakerMC_bgp2.cfg", "edges", 4000),
+                      ("SpeakerMC_bgpeq.cfg", "edges", 4000), ("SpeakerMC_bgpflap.cfg", "edges", None),
+                      ("SpeakerMC_bgpfault.cfg", "edges", 4000), ("SpeakerMC_bgp_sim.cfg", "sim", None)],
             "thorough": [("SpeakerMC_bgp.cfg", "edges", None), ("SpeakerMC_bgp2.cfg", "edges", None),
                          ("SpeakerMC_bgpeq.cfg", "edges", None), ("SpeakerMC_bgpflap.cfg", "edges", None),
                          ("SpeakerMC_bgpfault.cfg", "edges", None), ("SpeakerMC_bgp3.cfg", "edges", 100000),
@@ -262,9 +262,21 @@ def node_learnt_late(walk_obs, k):
     return False
 
 
+def fault_origin(walk_obs, k):
+    """Which injected fault has fired before observation k, and in which handler it fired first
+    ("set@DeliverNode": a Set call failed inside the node handler)."""
+    for key, kind in (("setFailed", "set"), ("startFailedN", "start")):
+        if walk_obs[k].get(key):
+            first = next(j for j in range(k + 1) if walk_obs[j].get(key))
+            return "%s@%s" % (kind, walk_obs[first]["op"])
+    return "none"
+
+
 def signature(name, walk_obs, k):
     """Stable description of a failure, computed from the observations only (never decides)."""
     o = walk_obs[k]
+    if name.startswith("C05.") and fault_origin(walk_obs, k) != "none":
+        return "%s|fault=%s" % (name, fault_origin(walk_obs, k))
     if name == "C09.Converged":
         ml2, mbgp = announced_view(o)
         fl2, fbgp = announced_view(o["fresh"])
@@ -290,11 +302,9 @@ def signature(name, walk_obs, k):
     if name == "C05.ReportedPeers":
         up = {p for p, v in o["peers"].items() if v["up"]}
         ghost = any(p not in up for l in o["rep"].values() for p in l)
-        fault = "set" if o.get("setFailed") else ("start" if o.get("startFailedN") else "none")
-        return "%s|kind=%s|q=%s|fault=%s" % (name, "reports-peer-without-session" if ghost else "other",
-                                             str(bool(o["q"])).lower(), fault)
-    fault = "set" if o.get("setFailed") else ("start" if o.get("startFailedN") else "none")
-    return "%s|op=%s|fault=%s" % (name, o["op"], fault)
+        return "%s|kind=%s|q=%s|fault=none" % (name, "reports-peer-without-session" if ghost else "other",
+                                               str(bool(o["q"])).lower())
+    return "%s|op=%s|fault=none" % (name, o["op"])
 
 
 def classify(fails_of_line):
